@@ -10,8 +10,9 @@ from . import cli, core
 def gen_v1(rnd):
     """returns (toml text, list of dotted names)"""
     lines, names = [], []
-    if rnd.random() < 0.5:
-        lines += ["[selene]", 'base = "lua51"', ""]
+    base = rnd.choice([None, "lua51", "lua51", "lua52", "lua53", "luau"])
+    if base:
+        lines += ["[selene]", 'base = "%s"' % base, ""]
     msgs = ["need this", "true", "false", "null", "1e3", "a: b", " x ", "#c"]
     for i in range(rnd.randint(1, 5)):
         root = rnd.choice(["alpha", "beta", "gamma"]) + str(i)
@@ -43,7 +44,7 @@ def gen_v1(rnd):
         else:
             lines += ["[%s]" % root, "removed = true", ""]
             names.append(root)
-    return "\n".join(lines) + "\n", names
+    return "\n".join(lines) + "\n", names, base
 
 
 def run(ctx):
@@ -56,8 +57,11 @@ def run(ctx):
         d = os.path.join(wd, str(i))
         os.makedirs(os.path.join(d, "t"), exist_ok=True)
         os.makedirs(os.path.join(d, "y"), exist_ok=True)
-        toml, names = gen_v1(rnd)
+        toml, names, base = gen_v1(rnd)
         probe = "".join("local _ = %s\n%s()\n%s(1, 2, 3)\n%s = 1\n" % (nm, nm, nm, nm) for nm in names)
+        # the dialect is inherited from the base on both paths: syntax only that dialect has
+        probe += {"lua52": "goto done\n::done::\n", "lua53": "local q7 = 7 // 2\nprint(q7)\n",
+                  "luau": "local q7: number = 1\nq7 += 1\nprint(q7)\n"}.get(base, "")
         open(os.path.join(d, "t", "mystd.toml"), "w").write(toml)
         open(os.path.join(d, "up.toml"), "w").write(toml)
         for sub in ("t", "y"):
